@@ -1,7 +1,7 @@
 (* Not part of the build: run by the check only when the source-level theorems (Props/C01src.v, C02src.v) no longer
    check.  Evaluates the regenerated translation of the Go source against the wire model on boundary inputs and prints
    the inputs on which they differ (a search for a concrete failing input, not a proof). *)
-From CsProto Require Import Prelude Varint ZigZag Codec GoSem SrcWire SrcLink.
+From CsProto Require Import Prelude Varint ZigZag Codec GoSem SrcWire SrcLink SrcDecoderLink.
 Local Open Scope Z_scope.
 
 Definition pows : list Z := flat_map (fun k => [2^k - 1; 2^k; 2^k + 1]) (map Z.of_nat (seq 0 64)).
@@ -60,3 +60,51 @@ Definition res_sweep_DecodeZigZag64 := Eval vm_compute in sweep_DecodeZigZag64. 
 Definition res_sweep_DecodeZigZag32 := Eval vm_compute in sweep_DecodeZigZag32. Print res_sweep_DecodeZigZag32.
 Definition res_sweep_DecodeFixed32 := Eval vm_compute in sweep_DecodeFixed32. Print res_sweep_DecodeFixed32.
 Definition res_sweep_DecodeFixed64 := Eval vm_compute in sweep_DecodeFixed64. Print res_sweep_DecodeFixed64.
+
+(* ---- the Decoder methods against the model's decoder operations, over every cursor and both modes of sample buffers *)
+Definition mkd (b : list N) (o : nat) (f : bool) := {| dbuf := b; doff := o; dfast := f |}.
+Definition bufs : list (list N) := [[]; [8;1]; [8;150;1;18;3;1;2;3]; [255;255;255;255;255;255;255;255;255;1;7]; [128]; [0;1]; [250;255;255;255;15;5];
+  [16;255;255;255;255;15]; [16;255;255;255;255;31]; [8;255;255;255;255;255;255;255;255;255;1]; [18;5;1;2]; [13;1;2;3;4;9;1;2;3;4;5;6;7;8];
+  [128;128;128;128;128;128;128;128;128;128;128;1]; [130;1;3;1;2;3;4]; [8;128;128;128;128;16]; [8;255;255;255;255;7]; [8;128;128;128;128;248;255;255;255;255;1]]%N.
+Definition sts : list decoder := flat_map (fun b => flat_map (fun o => [mkd b o false; mkd b o true]) (seq 0 (S (List.length b)))) bufs.
+Definition dres_eqb {A} (eq : A -> A -> bool) (x y : option (dres A)) : bool :=
+  match x, y with
+  | Some (DOk a d), Some (DOk a' d') => eq a a' && (doff d =? doff d')%nat && Bool.eqb (dfast d) (dfast d')
+  | Some (DErr d), Some (DErr d') => (doff d =? doff d')%nat
+  | Some DPanic, Some DPanic => true
+  | _, _ => false end.
+Definition nneq (a b : N * N) := (fst a =? fst b)%N && (snd a =? snd b)%N.
+Fixpoint lneq (a b : list N) := match a, b with [], [] => true | x :: a', y :: b' => (x =? y)%N && lneq a' b' | _, _ => false end.
+Definition show (d : decoder) : list N * nat * bool := (dbuf d, doff d, dfast d).
+Definition sw {A B} (eq : B -> B -> bool) (conv : A -> B) (go : nat -> list Z -> Z -> Z -> gores (A * option String.string * Z)) (model : decoder -> dres B) :=
+  map show (filter (fun d => negb (dres_eqb eq (abs_res conv d (go 12%nat (st_p d) (st_off d) (st_mode d))) (Some (model d)))) sts).
+Definition sweep_Decoder_DecodeTag := sw nneq conv_tag go_Decoder_DecodeTag dec_tag.
+Definition sweep_Decoder_DecodeBool := sw Z.eqb conv_bool go_Decoder_DecodeBool (fun d => dec_scalar d KBool).
+Definition sweep_Decoder_DecodeUInt32 := sw Z.eqb conv_id go_Decoder_DecodeUInt32 (fun d => dec_scalar d KUInt32).
+Definition sweep_Decoder_DecodeUInt64 := sw Z.eqb conv_id go_Decoder_DecodeUInt64 (fun d => dec_scalar d KUInt64).
+Definition sweep_Decoder_DecodeInt32 := sw Z.eqb conv_id go_Decoder_DecodeInt32 (fun d => dec_scalar d KInt32).
+Definition sweep_Decoder_DecodeInt64 := sw Z.eqb conv_id go_Decoder_DecodeInt64 (fun d => dec_scalar d KInt64).
+Definition sweep_Decoder_DecodeSInt32 := sw Z.eqb conv_id go_Decoder_DecodeSInt32 (fun d => dec_scalar d KSInt32).
+Definition sweep_Decoder_DecodeSInt64 := sw Z.eqb conv_id go_Decoder_DecodeSInt64 (fun d => dec_scalar d KSInt64).
+Definition sweep_Decoder_DecodeFixed32 := sw Z.eqb conv_id go_Decoder_DecodeFixed32 (fun d => dec_scalar d KFixed32).
+Definition sweep_Decoder_DecodeFixed64 := sw Z.eqb conv_id go_Decoder_DecodeFixed64 (fun d => dec_scalar d KFixed64).
+Definition sweep_Decoder_decodeBytes := sw lneq conv_bytes go_Decoder_decodeBytes dec_bytes.
+Definition tws : list (Z * Z) := [(1,0);(1,2);(2,2);(1,1);(1,5);(16,0);(2,0);(3,3);(1,6);(1,-1);(536870911,5);(0,0);(2^62,2)].
+Definition sweep_Decoder_Skip := map (fun '(d, tw) => (show d, tw)) (filter (fun '(d, (t, w)) =>
+  negb (dres_eqb lneq (abs_res conv_bytes d (go_Decoder_Skip 12 (st_p d) (st_off d) (st_mode d) t w)) (Some (dec_skip d t w)))) (list_prod sts tws)).
+Definition ows : list (Z * Z) := [(0,0);(1,0);(-1,0);(3,1);(-1,1);(-1,2);(0,2);(1,2);(5,3);(2^63-1,1);(-2^63,2);(100,0)].
+Definition sweep_Decoder_Seek := map (fun '(d, ow) => (show d, ow)) (filter (fun '(d, (o, w)) =>
+  negb (dres_eqb Z.eqb (abs_res conv_id d (Val (go_Decoder_Seek (st_p d) (st_off d) (st_mode d) o w))) (Some (dec_seek d o w)))) (list_prod sts ows)).
+Definition res_sweep_Decoder_DecodeTag := Eval vm_compute in sweep_Decoder_DecodeTag. Print res_sweep_Decoder_DecodeTag.
+Definition res_sweep_Decoder_DecodeBool := Eval vm_compute in sweep_Decoder_DecodeBool. Print res_sweep_Decoder_DecodeBool.
+Definition res_sweep_Decoder_DecodeUInt32 := Eval vm_compute in sweep_Decoder_DecodeUInt32. Print res_sweep_Decoder_DecodeUInt32.
+Definition res_sweep_Decoder_DecodeUInt64 := Eval vm_compute in sweep_Decoder_DecodeUInt64. Print res_sweep_Decoder_DecodeUInt64.
+Definition res_sweep_Decoder_DecodeInt32 := Eval vm_compute in sweep_Decoder_DecodeInt32. Print res_sweep_Decoder_DecodeInt32.
+Definition res_sweep_Decoder_DecodeInt64 := Eval vm_compute in sweep_Decoder_DecodeInt64. Print res_sweep_Decoder_DecodeInt64.
+Definition res_sweep_Decoder_DecodeSInt32 := Eval vm_compute in sweep_Decoder_DecodeSInt32. Print res_sweep_Decoder_DecodeSInt32.
+Definition res_sweep_Decoder_DecodeSInt64 := Eval vm_compute in sweep_Decoder_DecodeSInt64. Print res_sweep_Decoder_DecodeSInt64.
+Definition res_sweep_Decoder_DecodeFixed32 := Eval vm_compute in sweep_Decoder_DecodeFixed32. Print res_sweep_Decoder_DecodeFixed32.
+Definition res_sweep_Decoder_DecodeFixed64 := Eval vm_compute in sweep_Decoder_DecodeFixed64. Print res_sweep_Decoder_DecodeFixed64.
+Definition res_sweep_Decoder_decodeBytes := Eval vm_compute in sweep_Decoder_decodeBytes. Print res_sweep_Decoder_decodeBytes.
+Definition res_sweep_Decoder_Skip := Eval vm_compute in sweep_Decoder_Skip. Print res_sweep_Decoder_Skip.
+Definition res_sweep_Decoder_Seek := Eval vm_compute in sweep_Decoder_Seek. Print res_sweep_Decoder_Seek.
